@@ -36,3 +36,59 @@ Definition C20_ti_run (i : C20_ti_in) : C20_ti_out :=
   let s := mkV (Some (r, count)) (Some true) None (Ok []) true (Ok 0) 0 in
   (match r with Ok _ => 1 | _ => 0 end,
    match verify_overall true s with Passed => 0 | _ => 1 end).
+
+(* stream "order": one faulted file, the payload reads under several read schedules (each on its own handle,
+   one handle used for two passes).  Input = (per frame id: the bytes in its window after the fault and the
+   checksum of its TOC entry; per frame id: the windows frame_canonical_payload reads for it (itself, or the
+   active chunks of a chunked document in chunk order); the schedules as lists of frame ids; the real BLAKE3
+   digests of the windows).  The model lays the windows out as a file and runs the handle model
+   (Detect.handle_read, which threads the history and ignores it); output per schedule step: 1 = Ok, 0 = error. *)
+Fixpoint C20_table_hash (t : list (bytes * bytes)) (x : bytes) : bytes :=
+  match t with
+  | [] => []
+  | (k, d) :: r => if bytes_eqb k x then d else C20_table_hash r x
+  end.
+
+Fixpoint window_frames (ws : list (bytes * bytes)) (pos : N) : list frame :=
+  match ws with
+  | [] => []
+  | (w, c) :: r => mkFrame pos (N.of_nat (length w)) false None c true :: window_frames r (pos + N.of_nat (length w))
+  end.
+
+Definition C20_order_in := (list (bytes * bytes) * list (list nat) * list (list nat) * list (bytes * bytes))%type.
+Definition C20_order_out := list (list N).
+
+Section Order.
+  Variable H : bytes -> bytes.
+  Variable ctx : N * N * N.
+  Variable file : bytes.
+  Variable frames : list frame.
+  Variable deps : list (list nat).
+
+  (* document_chunk_payloads: the children one after the other, `?` on the first error *)
+  Fixpoint step_reads (hist : list frame) (frs : list frame) : list frame * bool :=
+    match frs with
+    | [] => (hist, true)
+    | fr :: r =>
+        let '(h1, a) := handle_read H ctx file hist fr in
+        match a with
+        | Ok _ => step_reads h1 r
+        | _ => (h1, false)
+        end
+    end.
+
+  Fixpoint answers (hist : list frame) (sched : list nat) : list N :=
+    match sched with
+    | [] => []
+    | p :: r =>
+        let frs := flat_map (fun j => match nth_error frames j with Some fr => [fr] | None => [] end) (nth p deps []) in
+        let '(h', b) := step_reads hist frs in
+        (if b then 1 else 0) :: answers h' r
+    end.
+End Order.
+
+Definition C20_order_run (i : C20_order_in) : C20_order_out :=
+  let '(wins, deps, scheds, tbl) := i in
+  let file := flat_map fst wins in
+  let ctx := (0, 0, N.of_nat (length file)) in
+  map (answers (C20_table_hash tbl) ctx file (window_frames wins 0) deps []) scheds.
